@@ -282,6 +282,9 @@ def generate(repo):
         if al not in aliases:
             raise Refused(tree, f"prepare.py: {al} missing")
     out += [f"Definition gen_prepare_is_pinned : bool := true.   (* {n_pinned} functions *)", ""]
+    # the all-missing placeholder derived from a finished result (modelled in RunnerInst.v; pinned as well)
+    pins.check(repo, SRC, ["nan_like_result", "infer_shape"])
+    out += ["Definition gen_placeholder_is_pinned : bool := true.", ""]
 
     # ---- prepare.py: a value that EQUALS an earlier value of the same argument is refused (the results are
     #      keyed by value, so equal values would share one slot), for every argument of the grid
